@@ -58,6 +58,35 @@ fn degenerate(s: &mut Snap, t: St, p: usize) {
     }
 }
 
+/// put two values at positions p and q of stack t that compare EQUAL under `==` but are
+/// distinguishable (+0.0 / -0.0, alone or inside a list / vector): an instruction that
+/// "optimises" on equality of its operands shows here and nowhere else
+fn twins(s: &mut Snap, t: St, p: usize, q: usize) {
+    if p == q {
+        return;
+    }
+    let (pz, nz) = (fb(0.0), fb(-0.0));
+    match t {
+        St::Float if p < s.f.len() && q < s.f.len() => {
+            s.f[p] = pz;
+            s.f[q] = nz;
+        }
+        St::Code if p < s.c.len() && q < s.c.len() => {
+            s.c[p] = SItem::List(vec![SItem::Float(pz), SItem::Int(7), SItem::FV(vec![nz])]);
+            s.c[q] = SItem::List(vec![SItem::Float(nz), SItem::Int(7), SItem::FV(vec![pz])]);
+        }
+        St::Exec if p < s.e.len() && q < s.e.len() => {
+            s.e[p] = SItem::List(vec![SItem::Float(pz), SItem::Int(7)]);
+            s.e[q] = SItem::List(vec![SItem::Float(nz), SItem::Int(7)]);
+        }
+        St::FV if p < s.fv.len() && q < s.fv.len() => {
+            s.fv[p] = vec![pz, fb(1.0)];
+            s.fv[q] = vec![nz, fb(1.0)];
+        }
+        _ => {}
+    }
+}
+
 /// put a large value (n elements / points / bytes) at position p of stack t
 fn enlarge(s: &mut Snap, t: St, p: usize, n: usize) {
     match t {
@@ -122,7 +151,7 @@ pub fn run(ctx: &mut Ctx) {
                 let hots: Vec<usize> = if *t == St::Bool { (0..=d).collect() } else { vec![0] };
                 for idx in idxs.iter() {
                     for hot in hots.iter() {
-                        for var in 0..variants {
+                        for var in 0..=variants {
                             case += 1;
                             grid += 1;
                             if !ctx.mine(case) {
@@ -135,6 +164,12 @@ pub fn run(ctx: &mut Ctx) {
                             // the target stack and the integer stack are exactly controlled
                             s.i.clear();
                             fill(&mut s, *t, d, *hot);
+                            if var == variants && d > 1 {
+                                // extra variant: equal-but-distinguishable twins on top and at the
+                                // addressed position (or second from top)
+                                let q = if takes_index(op) { crate::frame::clamp(*idx, d).max(1).min(d - 1) } else { 1 };
+                                twins(&mut s, *t, 0, q);
+                            }
                             if var == variants - 1 && d > 0 {
                                 // last variant: the addressed position holds the type's "empty" value
                                 degenerate(&mut s, *t, crate::frame::clamp(*idx, d));
